@@ -224,6 +224,12 @@ def make_root(name):
     return fixtures.SealedByDefault(x=pg.Dict(q=0), items=[1]).seal(False)
   if name == 'sealed_by_default':
     return fixtures.SealedByDefault(x=pg.Dict(q=pg.List([0])), items=[pg.Dict(r=1), 2])
+  if name == 'typed_ro':
+    # schema-bound containers whose accessors are switched off
+    return pg.Dict(
+        t=pg.Dict(value_spec=pg.typing.Dict([('a', pg.typing.Int(default=0)), (pg.typing.StrKey('k.*'), pg.typing.Any())]),
+                  accessor_writable=False, a=1, k1=pg.Dict(z=0)),
+        l=pg.List([1, 2], value_spec=pg.typing.List(pg.typing.Int()), accessor_writable=False))
   if name == 'instance_acc':
     # the accessor-writable flag changed per instance, in both directions, at the root and below it
     on = fixtures.NoAssign(x=pg.Dict(q=0), items=[fixtures.NoAssign(x=1).set_accessor_writable(True)]).set_accessor_writable(True)
